@@ -245,6 +245,83 @@ func runFreeWire(t *testing.T, rc *RunCtx) {
 			}
 		}
 	}
+	// A third of the runs: churn.  One or two clients keep creating accounts, locking and unlocking accounts and
+	// wallets (well-formed, permitted requests that change the instance's in-memory state) while several others
+	// sign by public key and list, all at once, until the creators are done.
+	if len(rc.Viol) == 0 && ch.Pick(3, 0) == 2 {
+		creators := 1 + ch.Pick(2, 0)
+		perCreator := 6 + ch.Pick(12, 0)
+		readers := 4 + ch.Pick(12, 0)
+		var done atomic.Bool
+		var wgC, wgR sync.WaitGroup
+		var panics atomic.Value
+		var reads, created atomic.Int64
+		keys := [][]byte{}
+		for _, a := range n.Pop.Accts[:8] {
+			keys = append(keys, a.PubKey)
+		}
+		for cIdx := 0; cIdx < creators; cIdx++ {
+			wgC.Add(1)
+			go func(cIdx int) {
+				defer wgC.Done()
+				ctx := n.Inst.ClientCtx("client1", "")
+				for i := 0; i < perCreator; i++ {
+					_, _, p, _ := callGuarded(60*time.Second, func() (proto.Message, error) {
+						r, err := n.Inst.AcctH.Generate(ctx, &pb.GenerateRequest{Account: fmt.Sprintf("Wallet 1/churn %d %d %d", rc.Seed%1000, cIdx, i), Passphrase: []byte("pass"), Participants: 1, SigningThreshold: 1})
+						if err == nil && r.GetState() == pb.ResponseState_SUCCEEDED {
+							created.Add(1)
+						}
+						return r, err
+					})
+					if p != "" {
+						panics.Store("AccountManager.Generate: " + p)
+					}
+					switch i % 4 {
+					case 1:
+						_, _ = n.Inst.AcctH.Lock(ctx, &pb.LockAccountRequest{Account: "Wallet 1/Account 40"})
+					case 2:
+						_, _ = n.Inst.AcctH.Unlock(ctx, &pb.UnlockAccountRequest{Account: "Wallet 1/Account 40", Passphrase: []byte("pass")})
+					case 3:
+						_, _ = n.Inst.WalletH.Unlock(ctx, &pb.UnlockWalletRequest{Wallet: "Wallet 1", Passphrase: []byte("pass")})
+					}
+				}
+			}(cIdx)
+		}
+		for rIdx := 0; rIdx < readers; rIdx++ {
+			wgR.Add(1)
+			go func(rIdx int) {
+				defer wgR.Done()
+				ctx := n.Inst.ClientCtx([]string{"client1", "client2"}[rIdx%2], "")
+				for u := uint64(0); !done.Load(); u++ {
+					var p string
+					if rIdx%4 == 3 {
+						_, _, p, _ = callGuarded(60*time.Second, func() (proto.Message, error) {
+							return n.Inst.ListerH.ListAccounts(ctx, &pb.ListAccountsRequest{Paths: []string{"Wallet 1"}})
+						})
+					} else {
+						_, _, p, _ = callGuarded(60*time.Second, func() (proto.Message, error) {
+							return n.Inst.SignerH.Sign(ctx, &pb.SignRequest{Id: &pb.SignRequest_PublicKey{PublicKey: keys[int(u)%len(keys)]}, Data: h32("churn", rIdx, u), Domain: MkDomain([4]byte{7, 0, 0, 0}, u)})
+						})
+					}
+					reads.Add(1)
+					if p != "" {
+						panics.Store("request during churn: " + p)
+						return
+					}
+				}
+			}(rIdx)
+		}
+		wgC.Wait()
+		done.Store(true)
+		wgR.Wait()
+		rc.Stats.Inc("free_running_churn_phases", 1)
+		rc.Stats.Inc("churn_accounts_created", created.Load())
+		rc.Stats.Inc("requests", reads.Load())
+		desc = append(desc, fmt.Sprintf("churn %d creators x %d, %d readers", creators, perCreator, readers))
+		if p, _ := panics.Load().(string); p != "" {
+			rc.Violate("C20", "panic-in-handler", p, volleys)
+		}
+	}
 	// Canary.
 	canaryAcct := n.Pop.ByPath("Wallet 2/Canary")
 	e := AttEntry(canaryAcct.idx, 1, 2, 1_000_000)
